@@ -166,7 +166,8 @@ P = {
          'boxes. The step itself at the exact instance: disjoint closed segments are left untouched with code 0, a single meeting point '
          'with a shared left/right endpoint or at an endpoint of each segment divides nothing, and every event the step creates lies at ONE '
          'point, the common point returned (C16_new_events_at_one_point; the one-ulp bump is the identity over exact arithmetic). The '
-         'kernel is independent of the order of two non-parallel segments (C16_order_independent_none/_point); every event the step creates, '
+         'kernel is independent of the order of its two segments for EVERY pair of non-degenerate segments, collinear ones included '
+         '(C16_kernel_order_independent; C16_order_independent_none/_point for the non-parallel case); every event the step creates, '
          'in every arm, lies on BOTH segments - in the overlap arm at an end of the common part (C16_new_events_lie_on_both_segments). The '
          'step RESOLVES its pair (all arms): a reported point is the ONLY common point (C16_reported_point_is_the_only_common_point); '
          'afterwards the sub-segments still starting at the two left events have no common point other than end points of both '
